@@ -24,9 +24,12 @@ func ExtractTypeInfo(t types.Type) *TypeInfo {
 	}
 
 	// Remove pointer if present
+	// Type aliases (type A = T) denote the same type: look through them
+	t = types.Unalias(t)
 	if ptr, ok := t.(*types.Pointer); ok {
 		t = ptr.Elem()
 	}
+	t = types.Unalias(t)
 
 	// Get named type
 	named, ok := t.(*types.Named)
@@ -54,9 +57,12 @@ func ExtractTypeName(t types.Type) string {
 	}
 
 	// Remove pointer if present
+	// Type aliases (type A = T) denote the same type: look through them
+	t = types.Unalias(t)
 	if ptr, ok := t.(*types.Pointer); ok {
 		t = ptr.Elem()
 	}
+	t = types.Unalias(t)
 
 	// Get named type
 	named, ok := t.(*types.Named)
